@@ -49,6 +49,21 @@ def gen_cases(ctx, return_logprobs=False, n_cases=None):
     return cases
 
 
+_API_PRIOR = None
+
+
+def api_prior():
+    """For the real-kernel cases: sigma_K0 chosen so that, over the library's periods (2..3.6 d) and eccentricities (0..0.6), the cap
+    max_K = 500 km/s on the K-prior variance is active for some rows and inactive for others."""
+    global _API_PRIOR
+    if _API_PRIOR is None:
+        import astropy.units as u
+        from thejoker.prior import JokerPrior
+
+        _API_PRIOR = JokerPrior.default(P_min=1 * u.day, P_max=100 * u.day, sigma_K0=85 * u.km / u.s, sigma_v=100 * u.km / u.s)
+    return _API_PRIOR
+
+
 def make_profile(kind, n, r):
     if kind == "nan":
         p = S.profile("narrow", n, r)
@@ -64,9 +79,16 @@ def run_impl(ctx, case):
     from thejoker.thejoker import TheJoker
 
     n = case["n"]
-    lib = S.make_library(n, seed=case["seed"] % 1000, with_lnprior=True, alt_units=case["seed"] % 3 == 0)
+    api = case["driver"] == "api"
+    lib = S.make_library(n, seed=case["seed"] % 1000, with_lnprior=True, alt_units=case["seed"] % 3 == 0 or api)
+    if api:
+        # the real kernel: a library that mixes rows of exactly zero jitter with jittered rows (and, with c02.real_prior(), rows whose
+        # K-prior variance is capped with rows where it is not), so that nothing a row leaves behind in the helper goes unnoticed
+        sj = lib["s"].copy()
+        sj[::3] = 0 * sj.unit
+        lib["s"] = sj
     rec = S.RecGen(case["seed"])
-    joker = TheJoker(c02.real_prior(), rng=rec)
+    joker = TheJoker(api_prior() if api else c02.real_prior(), rng=rec)
     stub = None
     if case["driver"] == "stub":
         stub = S.StubHelper(make_profile(case["kind"], n, np.random.default_rng(case["seed"] + 1)))
@@ -84,6 +106,14 @@ def run_impl(ctx, case):
     if case["path"] != "inmem":
         kw.update(n_batches=case["n_batches"], randomize_prior_order=case["randomize"])
     obs = dict(stub=stub, lib=lib, rec=rec)
+    if api:
+        # reference likelihood of every library row: evaluated alone, by a sampler of its own
+        import warnings
+
+        with warnings.catch_warnings():
+            warnings.simplefilter("ignore")
+            obs["ref_lls"] = np.array([float(np.asarray(TheJoker(api_prior(), rng=np.random.default_rng(0)).marginal_ln_likelihood(data, lib[i: i + 1], in_memory=True))[0])
+                                       for i in range(n)])
     try:
         res = joker.iterative_rejection_sample(data, fn if fn else lib, **kw)
         if isinstance(res, JokerSamples):
@@ -187,14 +217,16 @@ def predicate(case, obs):
         errs.append("shuffled order is not a selection of `budget` distinct library rows")
         return errs
     stub = obs["stub"]
-    if stub is not None:
-        ev = stub.evaluated
-        guard_raise = obs["kind"] == "raised" and obs["err"] == "non_finite" and case["path"] == "inmem"
-        if len(ev) > budget:
-            errs.append(f"evaluated {len(ev)} prior samples with a budget of {budget}")
-        if ev != order[: len(ev)].tolist() or (len(ev) != cks[-1] and not guard_raise):
-            errs.append(f"evaluated library rows are not the first {cks[-1]} rows of the evaluation order, each once (got {len(ev)} evaluations, {len(set(ev))} distinct)")
-        prof = stub.profile[order]
+    profile = stub.profile if stub is not None else obs.get("ref_lls")  # real kernel: each row's likelihood evaluated alone by another sampler
+    if profile is not None:
+        if stub is not None:
+            ev = stub.evaluated
+            guard_raise = obs["kind"] == "raised" and obs["err"] == "non_finite" and case["path"] == "inmem"
+            if len(ev) > budget:
+                errs.append(f"evaluated {len(ev)} prior samples with a budget of {budget}")
+            if ev != order[: len(ev)].tolist() or (len(ev) != cks[-1] and not guard_raise):
+                errs.append(f"evaluated library rows are not the first {cks[-1]} rows of the evaluation order, each once (got {len(ev)} evaluations, {len(set(ev))} distinct)")
+        prof = np.asarray(profile)[order]
         with np.errstate(all="ignore"):
             allv = prof[: cks[-1]]
             good = np.where(np.exp(allv - allv.max()) > draws[-1])[0] if len(draws[-1]) == len(allv) else None
